@@ -151,7 +151,7 @@ Definition op_setversion_stale : opd :=
   {| o_kind := KSetVersion; o_tract := 0; o_a1 := 3; o_a2 := 2; o_a3 := 0; o_data := []; o_srcs := []; o_pack := [] |}.
 Definition g_one_tract : gst :=
   {| g_busy := []; g_tracts := [(0, 0)]; g_files := [(0, {| f_fd := 1; f_ver := Some 2; f_data := [1; 2] |})];
-     g_nextfd := 2; g_opens := 0; g_closes := 0 |}.
+     g_gens := [(0, 2)]; g_opens := 0; g_closes := 0 |}.
 Definition all_done (s : sys) : bool := forallb (fun t => match t_pc t with PDone => true | _ => false end) (snd s).
 Definition sched_one (n : nat) : list (nat * Z) := repeat (0%nat, 0) n.
 
